@@ -13,26 +13,65 @@ advance by the part size; the default part size is 512 KiB. -/
 theorem source_rules :
     Facts.C33.emptyStops = true ∧ Facts.C33.lastIsShorter = true ∧ Facts.C33.allocStepIsPartSize = true ∧
     Facts.C33.writeBeforeLastCheck = true ∧ Facts.C33.defaultPartSize = 512 * 1024 ∧
-    Facts.C33.readerRetryUnbounded = true ∧ Facts.C33.verifierRetryUnbounded = true := by decide
+    Facts.C33.readerRetryUnbounded = true ∧ Facts.C33.verifierRetryUnbounded = true ∧
+    Facts.C33.nextReturnsChunkAsIs = true ∧ Facts.C33.offsetIsInt64 = true := by decide
 
 /-- Streaming: for every file and part size ≥ 1 the bytes handed to the `io.Writer`, in order, are
-exactly the file (no gap, no duplicate, correct length), and the loop terminates. -/
-theorem stream_exact (file : Bytes) (ps : Nat) (hps : 0 < ps) (fuel : Nat) (hfuel : file.length < fuel) :
-    (stream (fileServer file) ps fuel 0).writes.flatten = file ∧
-    (stream (fileServer file) ps fuel 0).done = true := by
-  have := stream_exact_gen file ps hps fuel 0 (by simpa using hfuel)
+exactly the file (no gap, no duplicate, correct length), the loop terminates, and the reported file type
+is the type `T` the server attaches to its answers (also when the download ends with the empty answer
+after an exact multiple of the part size, and for the 0-byte file). -/
+theorem stream_exact (file : Bytes) (tag : Nat → Nat) (T : Nat) (htag : ∀ off, tag off = T)
+    (ps : Nat) (hps : 0 < ps) (fuel : Nat) (hfuel : file.length < fuel) :
+    (stream (fileServer file) tag ps fuel 0).writes.flatten = file ∧
+    (stream (fileServer file) tag ps fuel 0).done = true ∧
+    (stream (fileServer file) tag ps fuel 0).typ = some T := by
+  have := stream_exact_gen file tag T htag ps hps fuel 0 (by simpa using hfuel)
   simpa using this
+
+/-- Every request of a streamed download is `(k·ps, ps)` for consecutive `k` starting at 0, ends with
+the first block that is short or empty, and every offset fits a signed 64-bit integer with room to spare
+whenever the file does (the implementation keeps the offset as an `int64` advanced in 64-bit arithmetic:
+`offsetIsInt64` in `source_rules`) — in particular for files beyond 2 GiB. -/
+theorem stream_requests (file : Bytes) (tag : Nat → Nat) (ps fuel : Nat) :
+    (stream (fileServer file) tag ps fuel 0).reqs = streamReqs file.length ps fuel 0 :=
+  stream_reqs_eq file tag ps fuel 0
+
+theorem stream_request_offsets (size ps : Nat) (hps : 0 < ps) : ∀ (fuel k : Nat),
+    ∀ r ∈ streamReqs size ps fuel k, r.2 = ps ∧ r.1 % ps = 0 ∧ r.1 ≤ max size (k * ps) := by
+  intro fuel
+  induction fuel with
+  | zero => intro k r h; simp [streamReqs] at h
+  | succ fuel ih =>
+    intro k r h
+    rw [streamReqs] at h
+    simp only [offsetOf_eq, isEndN_eq, isLastN_eq] at h
+    have hk : (k + 1) * ps = k * ps + ps := by rw [Nat.add_mul]; omega
+    split at h
+    · simp only [List.mem_singleton] at h; subst h
+      exact ⟨rfl, Nat.mul_mod_left k ps, by omega⟩
+    · split at h
+      · simp only [List.mem_singleton] at h; subst h
+        exact ⟨rfl, Nat.mul_mod_left k ps, by omega⟩
+      · rcases List.mem_cons.mp h with h | h
+        · subst h; exact ⟨rfl, Nat.mul_mod_left k ps, by omega⟩
+        · rename_i h1 h2
+          simp only [decide_eq_true_eq, Nat.not_lt] at h1 h2
+          have := ih (k + 1) r h
+          refine ⟨this.1, this.2.1, ?_⟩
+          have h3 := this.2.2
+          rw [hk] at h3
+          omega
 
 /-- Parallel: for **any number of workers and any interleaving** (any list of `alloc` / `complete i`
 actions from the initial state), once every worker has returned, the blocks handed to the `WriterAt` are
 — each exactly once — the blocks `(i·ps, file[i·ps, i·ps+ps))` with `i·ps < len`: nothing beyond the
 length, no duplicate, no gap; and those blocks in offset order concatenate to the file. -/
-theorem parallel_exact (file : Bytes) (ps : Nat) (hps : 0 < ps) (acts : List PAct) (s : PState)
-    (hrun : prun (fileServer file) ps {} acts = some s) (hfin : s.finished = true) :
+theorem parallel_exact (file : Bytes) (tag : Nat → Nat) (ps : Nat) (hps : 0 < ps) (acts : List PAct) (s : PState)
+    (hrun : prun (fileServer file) tag ps {} acts = some s) (hfin : s.finished = true) :
     s.writes.Perm (((List.range s.k).filter (live file ps)).map (blk file ps)) ∧
     (∀ i, live file ps i = true → i < s.k) ∧
     ((((List.range s.k).filter (live file ps)).map (blk file ps)).map (·.2)).flatten = file := by
-  have hinv := pinv_run file ps hps acts {} s (pinv_init file ps) hrun
+  have hinv := pinv_run file tag ps hps acts {} s (pinv_init file ps) hrun
   simp only [PState.finished, Bool.and_eq_true, List.isEmpty_iff] at hfin
   have hlen := hinv.stop hfin.2
   refine ⟨?_, ?_, ?_⟩
@@ -49,16 +88,25 @@ theorem parallel_exact (file : Bytes) (ps : Nat) (hps : 0 < ps) (acts : List PAc
 
 /-- Every write of a parallel download — finished or not — is a genuine block at a part-size offset
 (safety at every moment: whatever has been written so far is correct). -/
-theorem parallel_writes_genuine (file : Bytes) (ps : Nat) (hps : 0 < ps) (acts : List PAct) (s : PState)
-    (hrun : prun (fileServer file) ps {} acts = some s) :
+theorem parallel_writes_genuine (file : Bytes) (tag : Nat → Nat) (ps : Nat) (hps : 0 < ps) (acts : List PAct) (s : PState)
+    (hrun : prun (fileServer file) tag ps {} acts = some s) :
     ∀ w ∈ s.writes, ∃ i, i < s.k ∧ live file ps i = true ∧ w = blk file ps i := by
   intro w hw
-  have hinv := pinv_run file ps hps acts {} s (pinv_init file ps) hrun
+  have hinv := pinv_run file tag ps hps acts {} s (pinv_init file ps) hrun
   have hm : w ∈ ((List.range s.k).filter (live file ps)).map (blk file ps) :=
     hinv.perm.subset (List.mem_append_left _ hw)
   obtain ⟨i, hi, rfl⟩ := List.mem_map.mp hm
   have := List.mem_filter.mp hi
   exact ⟨i, List.mem_range.mp this.1, this.2, rfl⟩
+
+/-- The reported file type of a parallel download: for any server (not only the genuine file), any
+number of workers and any interleaving, once stop has been signalled the type stored by `typOnce` is the
+type `T` the server attaches to its answers — including downloads that end with an empty answer. -/
+theorem parallel_type_reported (srv : Server) (tag : Nat → Nat) (T : Nat) (htag : ∀ off, tag off = T)
+    (ps : Nat) (acts : List PAct) (s : PState)
+    (hrun : prun srv tag ps {} acts = some s) (hstop : s.stopped = true) : s.typ = some T := by
+  have h := tinv_run srv tag T htag ps acts {} s ⟨by intro h; simp at h, by intro h; simp at h⟩ hrun
+  exact h.typ (h.set hstop)
 
 /-- Flood waits and retryable timeouts only re-issue the same `(offset, limit)`: a script without a
 hard error always ends with the chunk obtained. -/
@@ -95,12 +143,16 @@ theorem retries_unbounded (faults : List Resp) (hf : ∀ r ∈ faults, r = .floo
 example : attempts (List.replicate 25 .timeout ++ [.ok]) = (26, true) := by decide
 
 /-- Non-vacuity: a 7-byte file with part size 3 streams as 3+3+1 bytes in three requests … -/
-example : stream (fileServer [1, 2, 3, 4, 5, 6, 7]) 3 8 0 =
-    { writes := [[1, 2, 3], [4, 5, 6], [7]], reqs := [(0, 3), (3, 3), (6, 3)], done := true } := by decide
+example : stream (fileServer [1, 2, 3, 4, 5, 6, 7]) (fun _ => 5) 3 8 0 =
+    { writes := [[1, 2, 3], [4, 5, 6], [7]], reqs := [(0, 3), (3, 3), (6, 3)], typ := some 5, done := true } := by decide
 /-- … an exact multiple needs the extra empty chunk … -/
-example : (stream (fileServer [1, 2, 3, 4]) 2 5 0).reqs = [(0, 2), (2, 2), (4, 2)] := by decide
+example : (stream (fileServer [1, 2, 3, 4]) (fun _ => 5) 2 5 0).reqs = [(0, 2), (2, 2), (4, 2)] := by decide
+/-- … requests of a 5 GiB file with 512 MiB parts (lengths only): offsets beyond 2^31 and 2^32 … -/
+example : (streamReqs 5368709125 536870912 20 0).map (·.1) =
+    [0, 536870912, 1073741824, 1610612736, 2147483648, 2684354560, 3221225472, 3758096384, 4294967296,
+     4831838208, 5368709120] := by decide
 /-- … and a parallel run with three workers completing out of order (block 2 first) finishes. -/
-example : (prun (fileServer [1, 2, 3, 4, 5]) 2 {} [.alloc, .alloc, .alloc, .complete 2, .complete 0, .complete 1]).map
-    (fun s => (s.writes, s.finished)) = some ([(4, [5]), (0, [1, 2]), (2, [3, 4])], true) := by decide
+example : (prun (fileServer [1, 2, 3, 4, 5]) (fun _ => 5) 2 {} [.alloc, .alloc, .alloc, .complete 2, .complete 0, .complete 1]).map
+    (fun s => (s.writes, s.finished, s.typ)) = some ([(4, [5]), (0, [1, 2]), (2, [3, 4])], true, some 5) := by decide
 
 end TdModel.C33
